@@ -6,7 +6,7 @@ import core
 import oracles
 
 SAFE = ["Model/Exec.v", "Model/ExecInv.v", "Proofs/ExecSafe.v", "Proofs/ExecCor.v"]
-LIVE = SAFE + ["Proofs/ExecLive.v", "Proofs/ExecMeasure.v"]
+LIVE = SAFE + ["Proofs/ExecLive.v", "Proofs/ExecMeasure.v", "Proofs/ExecLiveCor.v"]
 
 TABLE = {
     "C01": dict(kinds=["block", "step", "dep"], oracle=oracles.c01, cone=SAFE, n=(70, 700)),
